@@ -71,13 +71,13 @@ func dispatch(form string, n int, target string) dform {
 	case "deferred":
 		s("defer %s()", target)
 	case "go":
-		s("rt.GoBegin()")
+		s("w%d := rt.GoBegin()", n)
 		s("go %s()", target)
-		s("rt.GoEnd()")
+		s("rt.GoEnd(w%d)", n)
 	case "goClosure":
-		s("rt.GoBegin()")
+		s("w%d := rt.GoBegin()", n)
 		s("go func() {\n"+fmt.Sprintf(enter, fmt.Sprintf("gocl%d", n))+"\t%s()\n}()", target)
-		s("rt.GoEnd()")
+		s("rt.GoEnd(w%d)", n)
 	case "fparam":
 		d("func apply%d(f func()) {\n"+fmt.Sprintf(enter, fmt.Sprintf("apply%d", n))+"\tf()\n}", n)
 		s("apply%d(%s)", n, target)
@@ -86,9 +86,9 @@ func dispatch(form string, n int, target string) dform {
 		s("defer apply%d(%s)", n, target)
 	case "goArg":
 		d("func apply%d(f func()) {\n"+fmt.Sprintf(enter, fmt.Sprintf("apply%d", n))+"\tf()\n}", n)
-		s("rt.GoBegin()")
+		s("w%d := rt.GoBegin()", n)
 		s("go apply%d(%s)", n, target)
-		s("rt.GoEnd()")
+		s("rt.GoEnd(w%d)", n)
 	case "ifaceWiden":
 		d("type RW%d struct{}\nfunc (RW%d) M() {\n"+fmt.Sprintf(enter, fmt.Sprintf("RW%d.M", n))+"}\nfunc (RW%d) W() {\n"+
 			fmt.Sprintf(enter, fmt.Sprintf("RW%d.W", n))+"\t%s()\n}", n, n, n, target)
